@@ -123,7 +123,8 @@ size_t varintPFORSize(const varintPFORMeta *meta) {
 
     /* Exceptions: each is (index, value) pair */
     for (uint32_t i = 0; i < meta->exceptionCount; i++) {
-        size += varintTaggedLen(i);          /* worst case index */
+        /* worst case index: exceptions can sit anywhere in the array */
+        size += varintTaggedLen(meta->count > 0 ? meta->count - 1 : 0);
         size += varintTaggedLen(UINT64_MAX); /* worst case value */
     }
 
